@@ -165,8 +165,13 @@ fn check_built(rep: &Report, cn: &Cn, domain: [f64; 2], pts: &[[f64; 2]], follow
                 for ax in 0..2 {
                     let (x, w, l) = (q[ax], c[ax], domain[ax]);
                     let r = (x - w) / l;
-                    let in_box = w >= -4e-8 * (1.0 + l) && w < l + 4e-8 * (1.0 + l);
-                    let congruent = (r - r.round()).abs() * l <= 4e-8 * (1.0 + l) + 8.0 * f64::EPSILON * x.abs();
+                    // documented retry perturbation: +-(axis + 1) * 1e-8 * local scale, and the local scale is a cell extent,
+                    // which is governed by the largest period, not by this axis' own (an allowance of 4e-8 * (1 + l) flagged
+                    // a 4.2e-8 shift on an axis of period 2^-20 next to one of period 3: corrected)
+                    let lmax = domain.iter().fold(0.0f64, |a, b| a.max(*b));
+                    let allow = 2.0e-8 * (ax as f64 + 1.0) * (1.0 + 2.0 * lmax);
+                    let in_box = w >= -allow && w < l + allow;
+                    let congruent = (r - r.round()).abs() * l <= allow + 8.0 * f64::EPSILON * x.abs();
                     if !in_box || !congruent {
                         rep.violation(Finding { signature: json!({"check": "later_insertion_not_wrapped", "coord_class": coord_class(x, l)}), description: format!("insert({q:?}) into a toroidal triangulation (domain {domain:?}) stored {c:?}: coordinate {ax} is not wrapped into the fundamental box"), replay: replay(json!({"insert": q.to_vec()})) });
                         return;
